@@ -2,10 +2,13 @@ package checks
 
 import (
 	"fmt"
+	"github.com/prometheus/client_golang/prometheus"
 	"os"
 	"reflect"
 	"sort"
 	"strings"
+	"time"
+	"verif/engine/vrt"
 
 	"github.com/go-kit/log"
 	"github.com/prometheus/common/model"
@@ -102,6 +105,22 @@ func c11Assign(kind int) map[string][]*target.Target {
 			mk(22, "bb:9115", "http", labels.Label{Name: "__param_target", Value: "https://b.example"}),
 			mk(23, "bb:9115", "http", labels.Label{Name: "__param_target", Value: "https://c.example"}, labels.Label{Name: "__param_module", Value: "icmp"}),
 		}
+	case 6:
+		// replicas behind one instance name: two targets whose labels are equal apart from the address
+		a, b := mk(31, "r1:9100", "http"), mk(32, "r2:9100", "http")
+		for _, t := range []*target.Target{a, b} {
+			for i := range t.Labels {
+				if t.Labels[i].Name == "instance" {
+					t.Labels[i].Value = "shared-instance"
+				}
+			}
+		}
+		out["j1"] = []*target.Target{a, b}
+	case 5:
+		// one endpoint assigned under two jobs with the same final labels (both jobs relabel it alike, so it has
+		// ONE hash), next to a target of its own for each job
+		out["j1"] = []*target.Target{mk(11, "a:1", "http"), mk(14, "d:4", "http")}
+		out["j2"] = []*target.Target{mk(11, "a:1", "http"), mk(15, "e:5", "http")}
 	case 2, 3:
 		out["j1"] = []*target.Target{mk(11, "a:1", "https", labels.Label{Name: "env", Value: "prod"}), mk(12, "b:2", "http", labels.Label{Name: target.PrefixForInvalidLabelName + "1ab", Value: "x"})}
 		if kind == 3 {
@@ -171,7 +190,7 @@ func c11Check(text string, assignKind int, monitor bool, secSecrets []string) (g
 		}
 	}
 	// a write of the generated file that fails is not acknowledged, and the repeated update writes the file
-	other := c11Assign((assignKind + 1) % 5)
+	other := c11Assign((assignKind + 1) % 7)
 	freshOther, errO := pipe.Inject(info, other, opt)
 	for _, withFirst := range []bool{true, false} {
 		var first map[string][]*target.Target
@@ -210,6 +229,40 @@ func c11Check(text string, assignKind int, monitor bool, secSecrets []string) (g
 			}
 		}
 		os.RemoveAll(dirR)
+	}
+	// a reload and a targets update arriving at the same time (two requests served concurrently): every
+	// interleaving with at most two scheduling deviations; both succeed, and the file is the one a fresh injector
+	// writes for the NEW configuration and the NEW assignment
+	{
+		reloaded := strings.Replace(text, "- job_name: j2\n", "- job_name: j2\n  params:\n    module: [z]\n", 1)
+		rinfo, err := pipe.LoadInfo(reloaded)
+		if err != nil {
+			chk.Fatalf("C11 reloaded config rejected: %v", err)
+		}
+		want, errW := pipe.Inject(rinfo, other, opt)
+		var got []byte
+		var errA, errU error
+		bad := ""
+		st := vrt.Explore(2, 200, func(x *vrt.X) {
+			inj := sidecar.NewInjector("/nonexistent/out.yml", opt, prometheus.NewRegistry(), h1Quiet())
+			got = nil
+			inj.VerifSetWriteFile(func(fn string, d []byte, perm os.FileMode) error { got = append([]byte{}, d...); return nil })
+			_ = inj.ApplyConfig(info)
+			_ = inj.UpdateTargets(assigned)
+			vrt.RunScheduled(x, 2000, time.Unix(1700000000, 0), func() {
+				vrt.Go("reload", func() { errA = inj.ApplyConfig(rinfo) })
+				vrt.Go("update", func() { errU = inj.UpdateTargets(other) })
+				vrt.Quiesce(time.Second)
+			})
+		}, func(x *vrt.X) bool {
+			if bad == "" && (errA != nil || errU != nil || errW != nil || string(got) != string(want)) {
+				bad = fmt.Sprintf("schedule %v: reload err=%v, update err=%v, file equals the fresh one: %v", x.Picks(), errA, errU, string(got) == string(want))
+			}
+			return true
+		})
+		if bad != "" {
+			add("history", "C11:stale-after-concurrent-reload-and-update", "a configuration reload and a targets update served at the same time ("+fmt.Sprint(st.Executions)+" schedules): "+bad)
+		}
 	}
 	// a sidecar running from a configuration file: a reload of content the loader rejects changes nothing
 	for _, rj := range []struct{ name, text string }{
@@ -375,7 +428,7 @@ func init() {
 				for _, au := range c11Auth {
 					for _, di := range c11Disc {
 						for _, se := range c11Sec {
-							for as := 0; as < 5; as++ {
+							for as := 0; as < 7; as++ {
 								for _, mon := range []bool{false, true} {
 									run(js, au, di, se, as, mon)
 								}
@@ -395,7 +448,7 @@ func init() {
 				}
 			}
 			for _, se := range c11Sec {
-				for as := 0; as < 5; as++ {
+				for as := 0; as < 7; as++ {
 					for _, mon := range []bool{false, true} {
 						run(c11JobSettings[2], c11Auth[1], c11Disc[2], se, as, mon)
 					}
@@ -455,7 +508,7 @@ func c11Histories(text string, assignKind int) []c11History {
 	// a job setting changes
 	out = append(out, c11History{name: "reload-job-setting", text: strings.Replace(text, "- job_name: j2\n", "- job_name: j2\n  params:\n    module: [z]\n", 1), assign: assignKind, newConfig: true})
 	// only the assignment changes
-	out = append(out, c11History{name: "assignment-change", text: text, assign: (assignKind + 1) % 5, newAssign: true})
+	out = append(out, c11History{name: "assignment-change", text: text, assign: (assignKind + 1) % 7, newAssign: true})
 	// a job disappears from the configuration and comes back (rollback), no new assignment in between
 	out = append(out, c11History{name: "job-removed-then-restored", text: text, assign: assignKind, newConfig: true,
 		via: strings.Replace(text, "- job_name: j1\n", "- job_name: j1gone\n", 1)})
